@@ -29,7 +29,10 @@ Clauses (names as they appear in violation records)
   scalar-forms-agree   numpy integer scalar == Python int
   list-argument        a list of positions gives the same rows as the array
   note-array-columns   ks_fifths, ks_mode, ts_beats, ts_beat_type, ts_mus_beats, is_downbeat,
-        rel_onset_div, tot_measure_div of Part.note_array equal the reference at the note's onset
+        rel_onset_div, tot_measure_div of Part.note_array equal the reference at the note's onset; for a note starting in
+        no measure (where the statement fixes no extent) the last three equal what Part.metrical_position_map itself
+        returns for that onset: distance and length as they are, is_downbeat = 1 exactly when the distance is 0
+  rest-array-columns   the same for the rows of Part.rest_array (parts with rests: space onsets-outside-measures)
   map-total            building or calling a map raised
   requery-after-write  (space write-into-result-then-query) a map object held by the caller still returns the values in
         force after the caller has overwritten, in place, an array it got back from an earlier query of that map
@@ -40,6 +43,10 @@ Space `timeline-beyond-measures`: the measures do not span the whole timeline - 
 (a note sounding over it / starting at or after it, a key signature, clef or time signature after it) and/or begins
 before the first barline; positions inside a measure must still get that measure's extent, number and length
 (also in the note-array columns), positions in no measure are only checked for scalar/array agreement.
+
+Space `onsets-outside-measures`: a note and/or a rest STARTS at every position before the first barline and at or after
+the final barline (so also exactly 1, 2, .. bar lengths from the start of the last / first measure); the metrical columns
+of the note array and of the rest array must agree with the metrical-position map at those onsets too.
 """
 import itertools
 
@@ -50,7 +57,8 @@ from mc import c10_model as M
 
 PID = "C10"
 RULE = (
-    "a case is one part built by a sequence of Part.add / remove / set_quarter_duration operations (space inplace-then-query: "
+    "a case is one part built by a sequence of Part.add (time/key signatures, clefs, measures, notes, rests) / remove / "
+    "set_quarter_duration operations (space inplace-then-query: "
     "also use_musical_beat / use_notated_beat / set_musical_beat_per_ts and attribute assignments on the elements) in 1-4 phases; "
     "after each phase all compared maps are queried at every integer timeline position in 9 argument forms (space "
     "write-into-result-then-query: and again on the same map object after the caller overwrote each returned array); each "
@@ -75,7 +83,12 @@ ASSUMPTIONS = [
     "measure clauses are only generated for contiguous measures; they tile first..last time point except in the space "
     "timeline-beyond-measures and two edits of edit-then-query, where the timeline goes on after the final barline or begins "
     "before the first one; positions contained in no measure (the end of the last measure, positions after it or before the "
-    "first barline) are only checked for scalar/array agreement, and note-array measure columns only for notes starting inside a measure",
+    "first barline) are only checked for scalar/array agreement of the maps; the is_downbeat / rel_onset_div / tot_measure_div "
+    "columns of a note or rest starting there are compared with Part.metrical_position_map at that onset (the statement: "
+    "'the maps agree with the optional note-array columns derived from them'): rel_onset_div and tot_measure_div after casting "
+    "the map's values to the dtype of the columns, is_downbeat = 1 iff the map's distance from the measure start is 0",
+    "Part.rest_array carries the same optional columns as Part.note_array (built from the same maps) and is read as "
+    "covered by 'optional note-array columns' (clause rest-array-columns); rests are on staff 1, one division long",
     "a part beginning before its first barline is only generated with a complete first measure (no pickup) and no change of "
     "time signature or quarter duration up to the first barline",
     "requery-after-write: a caller may write into an array a map returned when numpy allows it (flags.writeable); results that "
@@ -141,6 +154,9 @@ def impl_apply(part, objs, op):
         part.add(o, op[1], op[2])
     elif k == "note":
         o = S.Note("C", 4, id=op[4], voice=1, staff=op[3])
+        part.add(o, op[1], op[2])
+    elif k == "rest":
+        o = S.Rest(id=op[4], voice=1, staff=op[3])
         part.add(o, op[1], op[2])
     elif k == "rm":
         part.remove(objs[op[1]])
@@ -448,39 +464,62 @@ NA_COLS = {
 }
 
 
-def check_note_array(res, part, st, maps, ctx):
-    notes = st.of("note")
+def _map_at_onset(part, t, dtypes):
+    """Part.metrical_position_map at the scalar position t -> (distance, (distance, length) cast to the dtypes of
+    the rel_onset_div / tot_measure_div columns)."""
+    r = part.metrical_position_map(t)
+    if isinstance(r, tuple):
+        v = [np.asarray(x).reshape(()) for x in r]
+    else:
+        v = list(np.asarray(r).reshape(-1))
+    if len(v) != 2:
+        raise Shape("%d value(s), expected 2" % len(v))
+    with np.errstate(all="ignore"):
+        cast = [int(np.asarray(x).astype(dt)) for x, dt in zip(v, dtypes)]
+    return _num(v[0]), cast
+
+
+def check_note_array(res, part, st, maps, ctx, kind="note"):
+    """The optional columns of Part.note_array (kind="note") / Part.rest_array (kind="rest") against the reference at
+    the onset of every row; for rows starting in no measure (the statement fixes no extent there) the three metrical
+    columns against what Part.metrical_position_map itself returns for that onset."""
+    notes = st.of(kind)
     if not notes:
         return 0
+    clause = "%s-array-columns" % kind
+    where = "Part.%s_array" % kind
     has_meas = "meas" in maps and len(st.of("meas")) > 0
     want = [k for k in ("ks", "ts") if k in maps] + (["meas"] if has_meas else [])
     if not want:
         return 0
     try:
-        na = part.note_array(include_key_signature="ks" in want, include_time_signature="ts" in want,
-                             include_metrical_position="meas" in want, include_staff=True)
+        na = getattr(part, kind + "_array")(include_key_signature="ks" in want, include_time_signature="ts" in want,
+                                            include_metrical_position="meas" in want, include_staff=True)
     except Hang:
         raise
     except Exception as ex:  # noqa
-        res.fail("note-array-columns", kind="exception", where=innermost_partitura_frame(ex), observed=exc_text(ex), detail=ctx)
+        res.fail(clause, kind="exception", where=innermost_partitura_frame(ex), observed=exc_text(ex), detail=ctx)
         return 1
+    calls = 1
     onset = {o[4]: o for o in notes}
     if sorted(str(i) for i in na["id"]) != sorted(onset):
-        res.fail("note-array-columns", expected=sorted(onset), observed=[str(i) for i in na["id"]], where="Part.note_array",
+        res.fail(clause, expected=sorted(onset), observed=[str(i) for i in na["id"]], where=where,
                  detail=ctx + " (rows)")
-        return 1
+        return calls
     meas = M.ref_measures(st) if has_meas else []
     for row in na:
         o = onset[str(row["id"])]
         t = o[1]
         exp, obs = [], []
         alt = None
+        note = ""
         if "ks" in want:
             exp += list(M.ref_ks(st, t))
             obs += [int(row[c]) for c in NA_COLS["ks"]]
         if "ts" in want:
             exp += list(M.ref_ts(st, t))
             obs += [int(row[c]) for c in NA_COLS["ts"]]
+        cols = sum((NA_COLS[k] for k in want if k != "meas"), [])
         if "meas" in want:
             m = M.ref_measure_at(meas, t)
             if m is not None:
@@ -488,17 +527,33 @@ def check_note_array(res, part, st, maps, ctx):
                 if len(meas) == 1:
                     alt = exp + [1, 0, 0]
                 exp += [1 if d == 0 else 0, d, ln]
-                obs += [int(row[c]) for c in NA_COLS["meas"]]
+            else:
+                # no measure contains the onset: the columns are "derived from" the metrical-position map, so they must
+                # show what the map says there (compared in the dtype of the columns): distance and length as they are,
+                # downbeat <=> the map gives distance 0
+                try:
+                    calls += 2
+                    d, cast = _map_at_onset(part, t, [na.dtype[c] for c in NA_COLS["meas"][1:]])
+                except Hang:
+                    raise
+                except Exception as ex:  # noqa
+                    res.fail("map-total", kind="exception", where=innermost_partitura_frame(ex) or "Part.metrical_position_map",
+                             observed=exc_text(ex), detail="%s metrical_position_map scalar t=%d" % (ctx, t))
+                    return calls
+                exp += [1 if d == 0 else 0] + cast
+                note = " (in no measure: expected = Part.metrical_position_map(%d), downbeat iff distance 0)" % t
+            obs += [int(row[c]) for c in NA_COLS["meas"]]
+            cols += NA_COLS["meas"]
         exp.append(o[3])
         obs.append(int(row["staff"]))
+        cols.append("staff")
         if alt is not None:
             alt.append(o[3])
         if obs != exp and obs != alt:
-            cols = sum((NA_COLS[k] for k in want), []) + ["staff"]
-            res.fail("note-array-columns", expected=dict(zip(cols, exp)), observed=dict(zip(cols, obs)), where="Part.note_array",
-                     detail="%s note %s onset=%d" % (ctx, o[4], t))
-            return 1
-    return 1
+            res.fail(clause, expected=dict(zip(cols, exp)), observed=dict(zip(cols, obs)), where=where,
+                     detail="%s %s %s onset=%d%s" % (ctx, kind, o[4], t, note))
+            return calls
+    return calls
 
 
 _CODES = None
@@ -566,6 +621,8 @@ def eval_case(case):
                     res.transitions += c
                     written += w
         res.transitions += check_note_array(res, part, st, maps, ctx)
+        if not res.violations:
+            res.transitions += check_note_array(res, part, st, maps, ctx, kind="rest")
         meas = M.ref_measures(st) if "meas" in maps else []
         pk = bool(meas) and meas[0][0] != meas[0][3]
         out = "ts%d ks%d clefstaves%s/%d meas%d pickup%d phases%d" % (
@@ -580,6 +637,9 @@ def eval_case(case):
             out += " written%s" % ("0" if not written else "1+" if written < 20 else "20+")
         if meas and "beyond" in case:
             out += " beyond%d/%d" % (min(meas[0][3] - T[0], 2), min(T[-1] - meas[-1][1], 2))
+        if meas and "fill" in case:
+            # how many bar lengths of the last measure the latest onset lies after its start
+            out += " fill-%s k%d" % (case["fill"], min((T[-1] - 1 - meas[-1][0]) // (meas[-1][1] - meas[-1][0]), 3))
         if len(T) >= 2:
             nontrivial = True
         if res.violations:
@@ -699,6 +759,33 @@ def spaces(tier, seed):
                "measure maps (+ key / clef map when such an element is present) and the note-array columns; thorough: L=1..8, "
                "quarter durations 1,2, 11 signature options, d in {1,2,4}; g in {1,3} x d in {0,1,3} for L=2..7; L=8,12 with "
                "quarter durations 2,3, d=3 and irregular numbering" + (" (blocks of 64)" if not thorough else "")))
+    # -- notes and rests starting in no measure
+    ts_out = [None, ("at0", 3, 4), ("at0", 2, 4), ("gap", 3, 4)]
+    sp.append(Space(
+        "onsets-outside-measures",
+        _blocked(lambda: itertools.chain(
+                     M.gen_onsets_outside(range(2, 6), (1,), ts_out, 3,
+                                          [(0, 1), (0, 3), (0, 6), (1, 0), (2, 0), (3, 0), (2, 3)], ("both",)),
+                     M.gen_onsets_outside((3, 4), (1,), ts_out, 2, [(0, 2), (2, 0)], ("notes", "rests")),
+                     M.gen_onsets_outside((4, 6), (2,), ts_out, 2, [(0, 4), (2, 0)], ("both",))),
+                 lambda: M.gen_onsets_outside(range(1, 9), (1, 2), ts_wide, 3,
+                                              [(0, 1), (0, 2), (0, 4), (0, 9), (1, 0), (2, 0), (4, 0), (1, 2), (3, 5)]),
+                 tier, seed, nb=64),
+        bounds="notes and rests that START where no measure is: the timeline begins g divisions before the first barline and "
+               "goes on d divisions after the final barline E, and an element of one division starts at EVERY position 0..g-1 "
+               "and E..E+d-1 - so also exactly 1, 2, .. lengths of the last measure after its start and one length of the first "
+               "measure before it (fill 'notes': a note at each, 'rests': a rest at each, 'both': a note and a rest at each; the "
+               "outside elements are inserted first (in reverse) or last), besides notes (and rests) at every measure start and "
+               "one division later. Compared: the three measure maps at every position (inside the measures with the reference, "
+               "elsewhere scalar/array agreement) and the is_downbeat / rel_onset_div / tot_measure_div columns of Part.note_array "
+               "AND Part.rest_array: rows starting inside a measure with the reference, rows starting in no measure with what "
+               "Part.metrical_position_map returns for that onset (downbeat <=> distance 0). core: every tiling of g..g+L "
+               "(L=2..5) by <=3 measures, quarter duration 1, time signature none / 3/4 / 2/4 at 0 / 3/4 starting at the second "
+               "barline, (g,d) in (0,1) (0,3) (0,6) (1,0) (2,0) (3,0) (2,3) with fill 'both'; L=3,4 by <=2 measures, (0,2) (2,0), "
+               "fills 'notes' and 'rests'; L=4,6 with quarter duration 2, (0,4) (2,0); a part beginning before its first "
+               "barline only with a complete first measure; thorough: L=1..8, quarter durations 1,2, 11 signature options, "
+               "(g,d) in (0,1) (0,2) (0,4) (0,9) (1,0) (2,0) (4,0) (1,2) (3,5), all three fills"
+               + (" (blocks of 64)" if not thorough else "")))
     # -- a caller writes into a returned array and asks again
     sp.append(Space(
         "write-into-result-then-query",
